@@ -32,7 +32,9 @@ CallbackFires(req, cfg) ==
     /\ cfg.reject # "none" /\ VersionOk(req.version) /\ req.method = "GET"
     /\ CASE cfg.reject = "onhost" -> req.host \in Good
          [] cfg.reject = "onheader" -> req.extra
-         [] cfg.reject = "negotiate" -> req.exts # <<>>
+         \* the negotiator objects to every offer, or only to the extension named cfg.rejectExt
+         [] cfg.reject = "negotiate" -> IF cfg.rejectExt = "" THEN req.exts # <<>>
+                                        ELSE \E i \in 1..Len(req.exts) : req.exts[i] = cfg.rejectExt
          [] OTHER -> TRUE
 
 \* the built-in checks: set of HTTP statuses that name a real problem
